@@ -28,6 +28,13 @@ class StreamNode(ConfigList):
     def stages(self):
         return self.builder.stages
 
+    def _get_child_kwargs(self, child=None):
+        # the stages are independent documents: the technical node which holds them must not
+        # hand its own "do not delete" flag down to them (it would turn off list replacement inside them)
+        ret = super()._get_child_kwargs(child)
+        ret.pop('implicit_delete', None)
+        return ret
+
     @namespace('ayns')
     def on_premerge_impl(self, path, into):
         self.clear()
